@@ -2,6 +2,7 @@
    Statements only; proofs in proofs/SendPacket_proofs.v.  [sstep] transliterates
    ControllerApplication.send_packet / _handle_frame_sent; it is tied to the real application and the
    real per-version send wrappers (and their status normalisation) by the C12 correspondence. *)
+From Coq Require Import String.    (* string literals; imported first so that List.concat is not shadowed *)
 From Coq Require Import ZArith NArith List Bool.
 Import ListNotations.
 Require Import BV.gen.GenApp BV.gen.GenStatus BV.model.Status BV.model.SendPacket BV.proofs.SendPacket_proofs.
@@ -10,7 +11,11 @@ Open Scope N_scope.
 (* vocabulary (proofs file):
    sfinal es := fst (srun s_init es)         souts es := concat (snd (srun s_init es))
    sends_unique es := the ids of the SSend events are pairwise distinct
-   reachable st := exists es, sends_unique es /\ st = sfinal es                                         *)
+   reachable st := exists es, sends_unique es /\ st = sfinal es
+   The proofs file establishes a global invariant of reachable states ([Inv], [reachable_inv]): request
+   ids unique, (destination, tag) keys unique, the lock holder is the one request in stage
+   RSetup/RSend, the waiters are distinct requests in stage RLock, nobody waits for a free lock, and a
+   request in stage RConfirm is a unicast without a remembered confirmation.                             *)
 
 (* a unicast returns normally only if the NCP accepted the message AND a confirmation for the same
    destination and message tag reported success, both while the request was in progress *)
@@ -21,11 +26,36 @@ Theorem c12_ok_needs_own_confirmation : forall es e id, sends_unique es ->
   \/ (e = SConfirm (q_dst r) (q_tag r) true /\ q_stage r = RConfirm).
 Proof. exact ok_needs_own_confirmation. Qed.
 
+(* the same over the whole history: every request reported delivered was in progress, and for a unicast
+   the events since its send_packet call contain the accepted enqueue reply AND a successful
+   confirmation for its own destination and message tag *)
+Theorem c12_ok_has_history : forall es e id, sends_unique (es ++ [e]) ->
+  In (XDone id ResOk) (snd (sstep (sfinal es) e)) ->
+  exists r, rget id (s_reqs (sfinal es)) = Some r /\
+    (q_kind r = Unicast ->
+     exists es1 n es2, es ++ [e] = es1 ++ SSend id Unicast (q_dst r) n :: es2 /\
+       In (SReply id EnqOk) es2 /\ In (SConfirm (q_dst r) (q_tag r) true) es2).
+Proof. exact ok_has_history. Qed.
+
 (* the stage RConfirm is only entered by an accepted enqueue, and a remembered confirmation was a
    confirmation for this very (destination, tag) *)
 Theorem c12_confirm_stage_means_accepted : forall st id, reachable st ->
   forall r, rget id (s_reqs st) = Some r -> q_stage r = RConfirm -> q_kind r = Unicast /\ q_confirmed r = None.
 Proof. exact confirm_stage_means_accepted. Qed.
+
+(* one more event: a new request starts without a confirmation and not in RConfirm; an existing request
+   keeps its kind, destination and tag, its confirmation is only ever set by a confirmation event for
+   its own (destination, tag), and it enters RConfirm only from RSend by an accepted enqueue reply *)
+Theorem c12_request_evolution : forall es e id r', sends_unique (es ++ [e]) ->
+  rget id (s_reqs (fst (sstep (sfinal es) e))) = Some r' ->
+  (rget id (s_reqs (sfinal es)) = None /\ (exists n, e = SSend id (q_kind r') (q_dst r') n) /\ q_confirmed r' = None /\
+   q_stage r' <> RConfirm)
+  \/ exists r, rget id (s_reqs (sfinal es)) = Some r /\
+       q_kind r' = q_kind r /\ (q_dst r', q_tag r') = (q_dst r, q_tag r) /\
+       (q_confirmed r' = q_confirmed r \/
+        (q_confirmed r = None /\ exists ok, q_confirmed r' = Some ok /\ e = SConfirm (q_dst r) (q_tag r) ok)) /\
+       (q_stage r' = RConfirm -> q_stage r = RConfirm \/ (q_stage r = RSend /\ e = SReply id EnqOk)).
+Proof. exact request_evolution. Qed.
 
 (* refusal: delivery error at once; confirmed failure: delivery error; no confirmation: timeout *)
 Theorem c12_refused : forall st id r, rget id (s_reqs st) = Some r -> q_stage r = RSend ->
@@ -36,6 +66,12 @@ Theorem c12_confirmed_failure : forall st r, rfind_tag (q_dst r) (q_tag r) (s_re
   q_stage r = RConfirm -> q_confirmed r = None ->
   In (XDone (q_id r) ResDeliveryError) (snd (sstep st (SConfirm (q_dst r) (q_tag r) false))).
 Proof. exact confirmed_failure_raises. Qed.
+
+(* in reachable states the hypothesis of c12_confirmed_failure holds for every request in progress: the
+   pending table finds a request by its id and by its (destination, tag) *)
+Theorem c12_pending_keys_unique : forall es r, sends_unique es -> In r (s_reqs (sfinal es)) ->
+  rget (q_id r) (s_reqs (sfinal es)) = Some r /\ rfind_tag (q_dst r) (q_tag r) (s_reqs (sfinal es)) = Some r.
+Proof. exact pending_keys_unique. Qed.
 
 Theorem c12_no_confirmation_times_out : forall st id r, rget id (s_reqs st) = Some r -> q_stage r = RConfirm ->
   In (XDone id ResTimeout) (snd (sstep st (STimer id))).
@@ -48,6 +84,22 @@ Theorem c12_busy_retries : forall st id r, rget id (s_reqs st) = Some r -> q_sta
                                                    /\ q_attempt r' = q_attempt r) /\
   (q_attempt r <? nretries = false -> In (XDone id ResDeliveryError) (snd (sstep st (STimer id)))).
 Proof. exact busy_retries. Qed.
+
+(* the two halves of a retry: a busy reply ends nothing, the request sleeps with one more attempt on its
+   count (a confirmation that already arrived stays remembered); when the delay is over it asks for the
+   lock again *)
+Theorem c12_busy_backs_off : forall es id r, sends_unique es ->
+  rget id (s_reqs (sfinal es)) = Some r -> q_stage r = RSend ->
+  (forall id' o, ~ In (XDone id' o) (snd (sstep (sfinal es) (SReply id EnqBusy)))) /\
+  exists r', rget id (s_reqs (fst (sstep (sfinal es) (SReply id EnqBusy)))) = Some r' /\
+             q_stage r' = RBackoff /\ q_attempt r' = q_attempt r + 1 /\ q_confirmed r' = q_confirmed r.
+Proof. exact busy_backs_off. Qed.
+
+Theorem c12_busy_retry_reenters : forall st id r, rget id (s_reqs st) = Some r -> q_stage r = RBackoff ->
+  q_attempt r <? nretries = true ->
+  exists r', rget id (s_reqs (fst (sstep st (STimer id)))) = Some r' /\
+    (q_stage r' = RLock \/ (exists n, q_stage r' = RSetup n) \/ q_stage r' = RSend).
+Proof. exact busy_retry_reenters. Qed.
 
 Theorem c12_retry_budget_pinned : nretries = 3 /\ RETRY_DELAYS = [(1, 2); (1, 1); (3, 2)] /\ APS_ACK_TIMEOUT = 120.
 Proof. vm_compute. repeat split. Qed.
@@ -71,10 +123,30 @@ Theorem c12_confirm_touches_only_its_request : forall st dst tag ok id o,
 Proof. exact confirm_touches_only_its_request. Qed.
 
 (* whatever the outcome, no bookkeeping for the request remains *)
+(* CORRECTED.  As first written the hypothesis was
+     forall r, In r (s_reqs st) -> q_id r = id -> exists! r0, In r0 (s_reqs st) /\ q_id r0 = id
+   which is uniqueness of the record VALUE, not of the table entry, and the statement was false:
+     a  = {| q_id := 0; q_kind := Unicast; q_dst := 7; q_tag := 1; q_setup := 0; q_attempt := 0;
+             q_stage := RConfirm; q_confirmed := None |}
+     st = {| s_seq := 1; s_reqs := [a; a]; s_lock := None; s_lockq := [] |},  e = SCancel 0
+   satisfies it, snd (sstep st e) = [XDone 0 ResCancelled], yet rget 0 (s_reqs (fst (sstep st e))) = Some a
+   (rdel removes one entry).  The hypothesis is now "request ids are pairwise distinct", which holds in
+   every reachable state (c12_no_residue_reachable).  ResDuplicateTag is excluded because that call
+   never got any bookkeeping. *)
 Theorem c12_no_residue : forall st e id o, In (XDone id o) (snd (sstep st e)) -> o <> ResDuplicateTag ->
-  (forall r, In r (s_reqs st) -> q_id r = id -> exists! r0, In r0 (s_reqs st) /\ q_id r0 = id) ->
+  NoDup (map q_id (s_reqs st)) ->
   rget id (s_reqs (fst (sstep st e))) = None /\ ~ In id (s_lockq (fst (sstep st e))).
 Proof. exact no_residue. Qed.
+
+Theorem c12_no_residue_reachable : forall es e id o, sends_unique es ->
+  In (XDone id o) (snd (sstep (sfinal es) e)) -> o <> ResDuplicateTag ->
+  rget id (s_reqs (fst (sstep (sfinal es) e))) = None /\ ~ In id (s_lockq (fst (sstep (sfinal es) e))).
+Proof. exact no_residue_reachable. Qed.
+
+(* and only requests in progress complete *)
+Theorem c12_done_only_in_progress : forall st e id o, In (XDone id o) (snd (sstep st e)) -> o <> ResDuplicateTag ->
+  exists r, rget id (s_reqs st) = Some r.
+Proof. exact done_only_in_progress. Qed.
 
 Theorem c12_all_done_all_clean : forall es, sends_unique es ->
   s_reqs (sfinal es) = [] -> s_lock (sfinal es) = None /\ s_lockq (sfinal es) = [].
@@ -88,9 +160,32 @@ Theorem c12_setup_atomic : forall es e id, sends_unique es ->
   \/ (exists o, In (XDone id o) (snd (sstep (sfinal es) e))).
 Proof. exact setup_atomic. Qed.
 
+(* stronger, and what is actually true: the request that issued a command holds the lock after the step
+   (the second alternative of c12_setup_atomic never occurs) *)
+Theorem c12_commands_by_holder : forall es e id, sends_unique es ->
+  (In (XSetup id) (snd (sstep (sfinal es) e)) \/ exists k d t, In (XSendCmd id k d t) (snd (sstep (sfinal es) e))) ->
+  s_lock (fst (sstep (sfinal es) e)) = Some id.
+Proof. exact commands_by_holder. Qed.
+
+(* restated: as first written the conclusion parsed as [exists r, (rget .. /\ exists n, ..) \/ q_stage r = RSend],
+   whose second alternative does not say that h is in progress *)
 Theorem c12_lock_holder_in_progress : forall es h, sends_unique es -> s_lock (sfinal es) = Some h ->
-  exists r, rget h (s_reqs (sfinal es)) = Some r /\ (exists n, q_stage r = RSetup n) \/ q_stage r = RSend.
+  exists r, rget h (s_reqs (sfinal es)) = Some r /\ ((exists n, q_stage r = RSetup n) \/ q_stage r = RSend).
 Proof. exact lock_holder_in_progress. Qed.
+
+(* conversely the holder is the only request in those stages; nobody waits for a free lock; the waiters
+   are distinct requests in progress, in stage RLock *)
+Theorem c12_holder_unique : forall es id r, sends_unique es -> rget id (s_reqs (sfinal es)) = Some r ->
+  ((exists n, q_stage r = RSetup n) \/ q_stage r = RSend) -> s_lock (sfinal es) = Some id.
+Proof. exact holder_unique. Qed.
+
+Theorem c12_free_lock_no_waiters : forall es, sends_unique es -> s_lock (sfinal es) = None -> s_lockq (sfinal es) = [].
+Proof. exact free_lock_no_waiters. Qed.
+
+Theorem c12_waiters_in_progress : forall es, sends_unique es ->
+  NoDup (s_lockq (sfinal es)) /\
+  forall id, In id (s_lockq (sfinal es)) -> exists r, rget id (s_reqs (sfinal es)) = Some r /\ q_stage r = RLock.
+Proof. exact waiters_in_progress. Qed.
 
 Example c12_example :
   concat (snd (srun s_init [SSend 0 Unicast 0x1000 1; SSend 1 Unicast 0x1001 0; SReply 0 EnqOk; SConfirm 0x1001 2 true;
